@@ -408,9 +408,7 @@ class Intrinsics:
         @reg("github.com/klauspost/cpuid/v2.CPUInfo.Has", "(github.com/klauspost/cpuid/v2.CPUInfo).Has",
              "(*github.com/klauspost/cpuid/v2.CPUInfo).Has")
         def cpu_has(eng, st, fr, args, ins):
-            t = eng.fresh_bool("cpuid.Has")
-            st.nondet.append(("cpuid.Has", t, 1))
-            return t
+            return eng.fresh_bool("cpuid.Has")      # both kernel families (not replay-controlled: the host decides natively)
 
         @reg("(github.com/klauspost/cpuid/v2.CPUInfo).HasAll", "(*github.com/klauspost/cpuid/v2.CPUInfo).HasAll",
              H + "SupportedCPU")
